@@ -339,4 +339,34 @@ theorem C05_pop_normalised (m c : BitVec 32) (ops : List Op) (ha : ∀ op ∈ op
 example : ∀ op ∈ [Op.init 7#32, .data 9#32 true, .fwd 12#32, .sack], assocOp op := by
   intro op h; simp at h; rcases h with rfl | rfl | rfl | rfl <;> trivial
 
+/-! ## shift invariance (the C16 obligation of this component) -/
+
+/-- Running the same ops with every TSN shifted by `k` (from a queue initialised at `c + k`)
+gives the shifted state — same `chunkSize`, same window, the bitmap the same ring read at shifted
+TSNs — and exactly the same observable results: the same booleans from `hasChunk`, `canPush`,
+`push`, `pop`, the same gap blocks, and the shifted last-TSN and duplicate list. The position
+of the 2^32 wrap is therefore invisible. -/
+theorem C05_shift_invariant (m c k : BitVec 32) (ops : List Op) :
+    ∀ s s', s = run (start m c) ops → s' = run (start m (c + k)) (ops.map (shiftOp k)) →
+    Shift k s.q s'.q ∧ gaps s'.q = gaps s.q ∧
+    (∀ t, hasChunk s'.q (t + k) = hasChunk s.q t ∧ canPush s'.q (t + k) = canPush s.q t ∧
+          (push s'.q (t + k)).2 = (push s.q t).2) ∧
+    (∀ f, (pop s'.q f).2 = (pop s.q f).2) ∧
+    lastTSN s'.q = (lastTSN s.q).map (· + k) ∧
+    (popDuplicates s'.q).2 = (popDuplicates s.q).2.map (· + k) := by
+  intro s s' hs hs'
+  have g : GInv s := hs ▸ run_ginv (start_ginv m c) ops
+  have h : Shift k s.q s'.q := by
+    rw [hs, hs']; exact shift_run ops (start_ginv m c) (shift_start m c k)
+  refine ⟨h, shift_gaps h, fun t => ⟨shift_hasChunk h t, shift_canPush h t, (shift_push g.inv.toRing h t).1⟩,
+    fun f => (shift_pop g.inv.toRing h f).1, ?_, h.dups⟩
+  simp only [lastTSN, h.size, h.tail]
+  split <;> rfl
+
+-- non-vacuity / test: a run across the wrap and the same run shifted by 2^31+5 report the same blocks
+set_option maxRecDepth 100000 in
+example : gaps (run (start 64#32 (4294967290#32 + 2147483653#32))
+      ([Op.data 4294967292#32 true, .data 1#32 true].map (shiftOp 2147483653#32))).q
+    = [(2#16, 2#16), (7#16, 7#16)] := by decide
+
 end C05
